@@ -93,7 +93,10 @@ var stepStats struct {
 	total, max        int64
 	maxPerByte        float64
 	maxAt, maxPerByAt string
+	sched             simtaskTotals
 }
+
+type simtaskTotals struct{ Spawned, Switches, TimersFired, EarlyFires, Polls, RunsWithTasks int64 }
 
 // caseInputLen is the length of the grammar text the case delivers.
 func caseInputLen(c *tooldriver.Case) int {
@@ -115,6 +118,15 @@ func noteSteps(c *tooldriver.Case, res *tooldriver.Result) {
 	n := caseInputLen(c)
 	for i := range res.Runs {
 		st := res.Runs[i].Steps
+		sc := res.Runs[i].Sched
+		stepStats.sched.Spawned += int64(sc.Spawned)
+		stepStats.sched.Switches += int64(sc.Switches)
+		stepStats.sched.TimersFired += int64(sc.TimersFired)
+		stepStats.sched.EarlyFires += int64(sc.EarlyFires)
+		stepStats.sched.Polls += int64(sc.Polls)
+		if sc.Spawned > 0 {
+			stepStats.sched.RunsWithTasks++
+		}
 		stepStats.runs++
 		stepStats.total += st
 		if res.Runs[i].StepCapHit {
@@ -216,4 +228,20 @@ func outcomeSignatures(o outcome) []string {
 		s = append(s, genSignature(&o.Res.Runs[i]))
 	}
 	return s
+}
+
+// schedEvidence describes the goroutine/channel/clock seam of the tool world:
+// what the instrumented packages contain and what the scheduler did.
+func schedEvidence(tw *toolWorld) map[string]any {
+	stepStats.Lock()
+	defer stepStats.Unlock()
+	r := tw.rewrite
+	t := stepStats.sched
+	return map[string]any{
+		"go_statements_in_main_ast_builder": r.GoStmts, "timer_calls": r.TimerCalls, "task_seam_active": r.TaskSeamActive,
+		"unsupported_constructs": r.TaskUnsupported, "channel_operations_rewritten": r.ChanOps, "select_statements_rewritten": r.Selects, "time_calls_rewritten": r.TimeCalls,
+		"runs_with_goroutines": t.RunsWithTasks, "tasks_spawned": t.Spawned, "task_switches": t.Switches, "timers_fired": t.TimersFired,
+		"timers_fired_while_tasks_were_runnable": t.EarlyFires, "blocked_polls": t.Polls,
+		"note": "on a tree without go statements and timers in main/ast/builder the seam is linked but idle; otherwise every goroutine of those packages is a task of a seeded cooperative scheduler (package simtask)",
+	}
 }
